@@ -27,6 +27,8 @@ func c16(p *core.Program, r *core.Report) {
 	c16FilterFlowsDown(p, r)
 	r.Rule("R7", "GroupBy paging: every cut of the result that depends on the limit argument and happens before the offset is applied (the limit handed to mergeGroupCounts, the bound of the per-shard collecting loop) also depends on the offset argument; the final slicing by offset and limit happens only on paths where opt.Remote was tested false")
 	c16GroupByPaging(p, r)
+	r.Rule("R8", "a counting filter serves one scan: a rowFilter made by a constructor whose closure updates a captured variable (filterWithLimit) and handed to fragment.rows inside a loop is made inside that same loop (possibly through slices it was appended to)")
+	c16StatefulFilterPerScan(p, r)
 	r.NotDecided = "Rows paging and merge limits, the intersections computed by the GroupBy iterator, time-range handling: value/iteration logic"
 	pk := p.Pkg("")
 	if pk == nil {
